@@ -14,18 +14,19 @@ NOT_APPLICABLE = {
 }
 
 # ---------------------------------------------------------------- C13
-_ops = ["eq", "ne", "lt", "le", "gt", "ge", "add", "sub", "mul", "div", "bitand", "bitor", "bitxor", "shl", "shr"]
+_wide = ["eq", "ne", "lt", "le", "gt", "ge", "add"]
+_narrow = ["sub", "mul", "div", "bitand", "bitor", "bitxor", "shl", "shr"]
 _c13 = []
-for op in _ops:
-    wide = op in ("eq", "ne", "lt", "le", "gt", "ge", "add")
-    _c13.append(H("proofs::c13::c13_binop_" + op, timeout=900 if wide else 600,
-                  symbolic="two operand Values held in row columns: kind class enumerated concretely "
-                           "({Null|Int(any i32)} symbolic, strings from {'', 'a', 'b'}), integer payloads full 32-bit",
-                  bounds="unwind 4 (also bounds Ast::eval recursion at the real depth 2); %d kind pairs" % (16 if wide else 4),
+_SYM13 = ("operand Values: kind enumerated concretely (Null, Int, '', 'a', 'b'), integer payloads symbolic, "
+          "full 32-bit")
+for op in _wide + _narrow:
+    _c13.append(H("proofs::c13::c13_lazy_" + op, timeout=600, mem_gb=6 if op == "add" else 3, symbolic=_SYM13 + "; held in row columns A, B",
+                  bounds="unwind 4 (also bounds Ast::eval recursion; real depth 2); kind pairs (Int,Int), ('a','b'), (Null,Int), (Int,'a')",
                   functions=["expr::Ast::eval", "expr::BinOp::eval", "table::Row::index", "value::Value::to_bool"]))
-    _c13.append(H("proofs::c13::c13_fold_" + op, timeout=900 if wide else 600,
-                  symbolic="two literal operands, same domain; constant folding at construction",
-                  bounds="unwind 4", functions=["expr::Expr::binop", "expr::BinOp::eval"]))
+    for suf in (["_k0", "_k1", "_k2", "_k3", "_k4"] if op in _wide else [""]):
+        _c13.append(H("proofs::c13::c13_fold_" + op + suf, timeout=600, mem_gb=6 if op == "add" else 3, symbolic=_SYM13 + "; literal operands, folded at construction",
+                      bounds="unwind 4; %s" % ("left kind fixed, 5 right kinds" if op in _wide else "9 kind pairs {Null,Int,'a'}^2"),
+                      functions=["expr::Expr::binop", "expr::BinOp::eval"]))
 for n in ["c13_ordering_consistent", "c13_unop_neg", "c13_unop_bitnot", "c13_unop_boolnot", "c13_and_or",
           "c13_short_circuit", "c13_mul_exact16", "c13_div_exact16"]:
     _c13.append(H("proofs::c13::" + n, timeout=900, symbolic="operand Values as above (exact16: both operands any i16)",
@@ -69,4 +70,287 @@ PROPS["C18"] = {
     "bounds": "none on integers (u64 ticks, i64-second SystemTime); structural: four functions + std models",
     "outside": "through-Package persistence of the property; platforms whose SystemTime is narrower than i64 seconds",
     "assumptions": list(__import__("vlib.mir_engine", fromlist=["x"]).STD_MODELS_DOC),
+}
+
+
+# ======================================================================
+# shared kernel harnesses
+# ======================================================================
+_CELLS = "proofs::cells::"
+_ROWS = "proofs::rows::"
+_POOL = "proofs::pool::"
+_PS = "proofs::propset::"
+_F_CELL = ["column::ColumnType::read_value", "column::ColumnType::write_value", "column::ColumnType::width",
+           "stringpool::StringRef::read", "stringpool::StringRef::write"]
+_F_ROWS = ["table::Table::write_rows", "column::ColumnType::write_value", "stringpool::StringRef::write"]
+_F_POOL = ["stringpool::StringPool::incref", "stringpool::StringPool::decref", "stringpool::StringPool::get",
+           "stringpool::StringPool::refcount", "stringpool::StringPoolBuilder::read_from_pool",
+           "stringpool::StringPoolBuilder::build_from_data", "codepage::ascii_decode"]
+_KASSUME = ["Kani models the dev profile (overflow checks and debug assertions on)",
+            "std::fmt::format stubbed to return an empty String (message text is never the subject)",
+            "io::Error values are mem::forget-ed in the harness (drop glue explodes symbolically)",
+            "memory-safety and assertion-reachability instrumentation switched off (safe Rust only; panics, "
+            "arithmetic overflow, slice bounds and unwinding assertions stay on)"]
+
+
+def _cell_roundtrips():
+    return [H(_CELLS + n, timeout=300, symbolic="cell value: Null or any integer valid for the column / any string reference 1..0xFFFFFF; reference width",
+              bounds="one cell; unwind 6", functions=_F_CELL)
+            for n in ["c01_cell_roundtrip_int16", "c01_cell_roundtrip_int32", "c01_cell_roundtrip_str_short",
+                      "c01_cell_roundtrip_str_long"]]
+
+
+_LAYOUT_Q = ["c01_layout_i16_str_r2_short", "c01_layout_i32_str_r2_long", "c01_layout_str_i16_r2_long", "c01_layout_i32_i16_r2"]
+_LAYOUT_T = ["c01_layout_str_str_r2_short", "c01_layout_str_i32_r1_short", "c01_layout_i16_r2", "c01_layout_i32_r2",
+             "c01_layout_str_r2_long", "c01_layout_i16_i16_r2", "c01_layout_i32_i32_r2", "c01_layout_i16_i32_r1"]
+
+
+def _layouts():
+    out = []
+    for n in _LAYOUT_Q + _LAYOUT_T:
+        out.append(H(_ROWS + n, tier="quick" if n in _LAYOUT_Q else "thorough", timeout=600,
+                     symbolic="every cell of the row block (Null / valid integer / string reference), concrete column types and row count",
+                     bounds="<= 2 rows x <= 2 columns (shape in the harness name); unwind 6", functions=_F_ROWS))
+    return out
+
+
+# ---------------------------------------------------------------- C01
+PROPS["C01"] = {
+    "level": "model_checking", "engine": "kani",
+    "technique": "bounded model checking (Kani/CBMC) of the serialisation kernels: write->read identity per cell and "
+                 "reference, written row block and pool image against an independent format description",
+    "claim": "Bounded model checking of the kernels a save/reopen goes through: every cell value valid for its column "
+             "is read back identically (all 16/32-bit integers, all reference numbers, both reference widths); "
+             "Table::write_rows emits exactly the column-major block of the format description for all cell contents "
+             "of <=2x2 tables; write_pool/write_data emit exactly the described image of the pool state and the "
+             "reader maps such images back to that state; interning a string value keeps the pool invariant (the "
+             "empty string is stored as null). Composition through Package/cfb, close modes and crash points are "
+             "outside the claim.",
+    "note": "Trusted: Kani/CBMC, the format description re-implemented in the harnesses. Outside: FinishImpl::finish, "
+            "flush/into_inner/Drop, Package::open's catalogue reconstruction, Table::read_rows (measured out of reach), "
+            "strings other than '', 'a', 'b', code pages other than US-ASCII, histories longer than one step.",
+    "kani": _cell_roundtrips() + _layouts() + [
+        H(_POOL + "c01_pool_image_ab", timeout=600, symbolic="reference counts (u16) of a 2-entry pool, texts 'a','b' concrete",
+          bounds="2 entries; unwind 8", functions=["stringpool::StringPool::write_pool", "stringpool::StringPool::write_data", "codepage::ascii_encode"]),
+        H(_POOL + "c01_pool_image_a_free_b_long", tier="thorough", timeout=900, symbolic="reference counts of a 3-entry pool with a free slot, long refs",
+          bounds="3 entries; unwind 8", functions=["stringpool::StringPool::write_pool", "stringpool::StringPool::write_data"]),
+        H(_POOL + "c02_pool_read_ab", timeout=300, symbolic="reference counts (u16) in an independently encoded pool header",
+          bounds="2 entries; unwind 8", functions=_F_POOL),
+        H(_POOL + "c01_value_intern_empty", timeout=300, symbolic="pre-state reference counts; value '' interned into a fresh and a 2-entry pool",
+          bounds="unwind 8", functions=["value::ValueRef::create", "stringpool::StringPool::incref", "value::ValueRef::to_value"]),
+        H(_POOL + "c01_value_intern_a", timeout=300, symbolic="pre-state reference counts; value 'a' interned",
+          bounds="unwind 8", functions=["value::ValueRef::create", "stringpool::StringPool::incref"]),
+        H(_CELLS + "c20_stringref_width", timeout=300, symbolic="reference number 1..0xFFFFFF, width flag", bounds="unwind 6",
+          functions=["stringpool::StringRef::write", "stringpool::StringRef::read"]),
+    ],
+    "bounds": "one cell; <=2 rows x <=2 columns; pools of <=3 entries with concrete texts; all integers / reference counts symbolic",
+    "outside": "composition through Package and cfb (finisher, close modes, crash after flush), read_rows, long strings, other code pages",
+    "assumptions": _KASSUME,
+}
+
+# ---------------------------------------------------------------- C02
+PROPS["C02"] = {
+    "level": "model_checking", "engine": "kani",
+    "technique": "bounded model checking (Kani/CBMC): the real decoders on arbitrary bytes vs. reference decoders written "
+                 "from the format description (differential)",
+    "claim": "For arbitrary input bytes the cell decoder, the reference decoder, the column bit-field decoder (all 2^32 "
+             "bit-fields) and the pool header/data reader return exactly what an independent description of the format "
+             "says, and refuse what it refuses. Decoder kernels only: Package::open, read_rows, property sets with "
+             "strings and code pages are outside.",
+    "note": "Trusted: Kani/CBMC, the reference decoders in kani/src/proofs/cells.rs and pool.rs. Outside: Package::open "
+            "(catalogue joins), Table::read_rows (measured out of reach), stream-name decoding, preservation of "
+            "untouched content after modification.",
+    "kani": [
+        H(_CELLS + "c02_read_value_vs_spec", timeout=300, symbolic="4 input bytes, input length 0..4, column type, reference width",
+          bounds="one cell; unwind 6", functions=_F_CELL),
+        H(_CELLS + "c02_bitfield_vs_spec", timeout=300, symbolic="the whole i32 bit-field", bounds="loop-free",
+          functions=["column::ColumnBuilder::with_bitfield", "column::ColumnType::from_bitfield"]),
+        H(_POOL + "c02_pool_read_ab", timeout=300, symbolic="reference counts (u16) in an independently encoded pool header",
+          bounds="2 entries, texts concrete; unwind 8", functions=_F_POOL),
+        H(_POOL + "c02_pool_read_a_free_a_long", timeout=300, symbolic="reference counts; duplicate text and a free slot; 3-byte references",
+          bounds="3 entries; unwind 8", functions=_F_POOL),
+        H(_PS + "c02_propset_read_vs_spec", tier="thorough", timeout=1800, mem_gb=12,
+          symbolic="two integer property values, order of the id/offset table, padding between values",
+          bounds="2 properties; unwind 10", functions=["propset::PropertySet::read", "propset::PropertyValue::read"]),
+    ],
+    "bounds": "one cell / one bit-field / pools of <=3 entries / property sets of 2 integer properties",
+    "outside": "Package::open, read_rows, code pages, strings in property sets, modification of foreign files",
+    "assumptions": _KASSUME,
+}
+
+# ---------------------------------------------------------------- C06
+PROPS["C06"] = {
+    "level": "model_checking", "engine": "kani", "premises": True,
+    "technique": "bounded model checking (Kani/CBMC) of Column::bitfield -> ColumnBuilder::with_bitfield over all "
+                 "column definitions create_table accepts (acceptance boundary measured natively per run)",
+    "claim": "For every column definition (type, any usize string width, localizable/nullable/primary-key flags, "
+             "category) that the real create_table accepts -- bit-field storable in the catalogue's Type cell and "
+             "width within the natively measured acceptance boundary -- decoding the stored bit-field yields the same "
+             "type, width and flags; all 26 category names survive as_str/parse. Kernel level; save/reopen is outside.",
+    "note": "Trusted: Kani/CBMC; the premise that create_table refuses string widths above the measured boundary "
+            "(native bisection on the real Package, refusal assumed upward-closed and spot-checked). Outside: "
+            "_Validation row handling in create_table/open (range, foreign key, enumerations with ';'), 32-column "
+            "lists, names, save/reopen through cfb.",
+    "kani": [
+        H("proofs::c06::c06_bitfield_roundtrip", timeout=300, symbolic="column type, string width (any usize), three flags, category class",
+          bounds="loop-free kernel; width premise from native probe", functions=["column::Column::bitfield", "column::ColumnBuilder::with_bitfield",
+                                                                              "column::ColumnType::from_bitfield", "column::Column::is_valid_value"]),
+        H("proofs::c06::c06_category_name_roundtrip", timeout=600, symbolic="none (26 categories enumerated inside the harness)",
+          bounds="unwind 30", functions=["category::Category::as_str", "category::Category::from_str", "category::Category::all"]),
+    ],
+    "bounds": "single column definition; all widths/flags",
+    "outside": "validation-table round trip, enumerations, save/reopen",
+    "assumptions": _KASSUME + ["create_table's acceptance boundary for string widths is measured natively on this run and assumed upward-closed"],
+}
+
+# ---------------------------------------------------------------- C08
+PROPS["C08"] = {
+    "level": "model_checking", "engine": "kani",
+    "technique": "bounded model checking (Kani/CBMC): one incref/decref/create/remove step from an arbitrary pool state "
+                 "satisfying the representation invariant (inductive step instead of histories); written images vs format",
+    "claim": "From every pool state of the listed shapes whose reference counts are arbitrary u16 values satisfying "
+             "'count 0 <=> empty text', one incref / decref / ValueRef create+remove changes exactly one count by exactly "
+             "one, never wraps at 0xFFFF, clears text at zero, leaves every other entry alone and re-establishes the "
+             "invariant; written row blocks and pool images equal the format description. Cross-table accounting and "
+             "dropped tables are outside.",
+    "note": "Trusted: Kani/CBMC; the invariant (if it were too weak the harness, not the code, is corrected). Outside: "
+            "reference count == number of referring cells across tables, catalogue numbering, drop_table not releasing "
+            "its rows' strings (package.rs:691-708; visible by reading, Package-level).",
+    "kani": [H(_POOL + n, timeout=600, symbolic="reference counts (u16 each) of the pre-state; for decref the entry index",
+               bounds="pool shape in the harness name (<=3 entries, texts from {'', 'a', 'b'}); unwind 6", functions=_F_POOL)
+             for n in ["c08_incref_ab_a", "c08_incref_ab_b", "c08_incref_aa_a", "c08_incref_free_a_a", "c08_incref_a_free_b",
+                       "c08_incref_a_b", "c08_incref_aba_a", "c08_decref_ab", "c08_decref_a_free_a", "c08_value_ref_pairing"]]
+    + [H(_POOL + "c01_pool_image_ab", timeout=600, symbolic="reference counts of a 2-entry pool", bounds="unwind 8",
+         functions=["stringpool::StringPool::write_pool", "stringpool::StringPool::write_data"]),
+       H(_POOL + "c01_value_intern_empty", timeout=300, symbolic="pre-state reference counts", bounds="unwind 8",
+         functions=["value::ValueRef::create"])]
+    + [H(_ROWS + n, timeout=600, symbolic="all cells", bounds="2x2; unwind 6", functions=_F_ROWS) for n in _LAYOUT_Q[:2]],
+    "bounds": "pools of <=3 entries, one operation",
+    "outside": "cross-table reference accounting, catalogue tables, dropped tables",
+    "assumptions": _KASSUME + ["representation invariant of reachable pool states: refcount == 0 <=> text == ''"],
+}
+
+# ---------------------------------------------------------------- C15
+PROPS["C15"] = {
+    "level": "model_checking", "engine": "kani",
+    "technique": "bounded model checking (Kani/CBMC) of the generic writer kernels with the medium replaced by a "
+                 "nondeterministic buffered writer: the fault schedule is a symbolic variable",
+    "claim": "For write_rows, write_pool, write_data and PropertySet::write, instantiated with a writer that has the "
+             "contract of cfb::Stream (buffering, flush may fail, Drop flushes and discards the error) and whose every "
+             "write/flush call may fail nondeterministically: whenever the kernel returns Ok, every accepted byte has "
+             "reached the medium once the by-value writer is gone; no schedule panics. Propagation through "
+             "FinishImpl/Package::flush and the container is outside (confirmed once natively by kani/src/native/c15.rs).",
+    "note": "Trusted: the stub writer's fidelity to cfb::Stream (cfb-0.10.0 stream.rs:210-248), Kani/CBMC. The claim "
+            "applies while call sites hand the stream over by value. Outside: cfb itself, read/seek faults, finisher.",
+    "kani": [
+        H(_ROWS + "c15_write_rows_i16_i32_r1", timeout=600, symbolic="cell values; one failure bit per write/flush call", bounds="1 row x 2 columns; buffer 6 bytes; unwind 6", functions=_F_ROWS),
+        H(_ROWS + "c15_write_rows_str_i16_r2", timeout=900, symbolic="cell values; one failure bit per write/flush call", bounds="2 rows x 2 columns; unwind 6", functions=_F_ROWS),
+        H(_POOL + "c15_write_pool", timeout=900, symbolic="reference counts; failure bits", bounds="2 entries; unwind 8", functions=["stringpool::StringPool::write_pool"]),
+        H(_POOL + "c15_write_data", timeout=900, symbolic="failure bits", bounds="2 entries; unwind 8", functions=["stringpool::StringPool::write_data"]),
+        H(_PS + "c15_propset_write", timeout=1200, mem_gb=6, symbolic="property value; failure bits", bounds="1 property; unwind 10", functions=["propset::PropertySet::write"]),
+    ],
+    "bounds": "<=2x2 rows, 2 pool entries, 1 property; every schedule of failing calls",
+    "outside": "FinishImpl::finish / Package::flush propagation, the cfb container, read and seek faults",
+    "assumptions": _KASSUME + ["writer stub = contract of cfb::Stream; streams are passed by value (today's call sites)"],
+}
+
+# ---------------------------------------------------------------- C10
+_C10_SHAPES = ["empty", "a", "ab", "abc", "abcd", "e1", "e1a", "e2", "e2a", "cjk", "cjk2a"]
+PROPS["C10"] = {
+    "level": "model_checking", "engine": "kani",
+    "technique": "bounded model checking (Kani/CBMC) of PropertyValue::write vs. the size the offset table is computed "
+                 "from (through the msi_verif hook), the code-page property for all 26 code pages, and C18's timestamp laws",
+    "claim": "Per property value: the bytes PropertyValue::write emits equal the size PropertySet::write uses for the "
+             "offset table, are a multiple of 4, and an LPSTR's length field equals its encoded bytes + 1 -- for all "
+             "scalar values (symbolic) and for 11 concrete string shapes covering every residue of UTF-8 vs encoded "
+             "length mod 4 under US-ASCII; set_codepage keeps property 1 and the cached code page in step for all 26 "
+             "code pages (16-bit id stored signed). String contents are concrete shapes: honestly close to a table of "
+             "runs decided by CBMC. Setter sequences, other code pages' encoders and save/reopen are outside.",
+    "note": "Trusted: Kani/CBMC; the cfg-gated hook only forwards to the private functions. Outside: PropertySet::write's "
+            "own loop over the BTreeMap (3 properties: > 10 min, measured), SummaryInfo setter sequences, template "
+            "split/merge, encoding_rs code pages, save/reopen.",
+    "kani": [H(_PS + "c10_size_law_str_" + n, timeout=300, symbolic="none (string shape concrete); the law is checked on the bytes produced",
+               bounds="string shape %s; unwind 12" % n, functions=["propset::PropertyValue::write", "propset::PropertyValue::encoded_size_including_padding", "codepage::ascii_encode"])
+             for n in _C10_SHAPES]
+    + [H(_PS + "c10_size_law_scalars", timeout=300, symbolic="I1/I2/I4/FILETIME payloads", bounds="unwind 12",
+         functions=["propset::PropertyValue::write", "propset::PropertyValue::encoded_size_including_padding", "timestamp::Timestamp::write_to"]),
+       H(_PS + "c10_codepage_property", timeout=300, symbolic="code page id (any i32 that names a code page: all 26)", bounds="loop-free",
+         functions=["propset::PropertySet::set_codepage", "propset::PropertySet::set", "codepage::CodePage::from_id", "codepage::CodePage::id"]),
+       H(_PS + "c10_propset_ints_roundtrip", tier="thorough", timeout=2400, mem_gb=24, symbolic="I4/I2/FILETIME values; ids concrete",
+         bounds="2 properties; unwind 10", functions=["propset::PropertySet::write", "propset::PropertySet::read"])],
+    "bounds": "one property value at a time; 11 string shapes; all scalar payloads; all 26 code pages for property 1",
+    "outside": "setter sequences, multi-property sets, template property, encoding_rs code pages, save/reopen",
+    "assumptions": _KASSUME + ["hook feature msi_verif exposes PropertyValue::write / encoded_size_including_padding unchanged"],
+}
+
+# ---------------------------------------------------------------- C20 (Kani part; the M part is added below)
+PROPS["C20"] = {
+    "level": "model_checking", "engine": "kani",
+    "technique": "bounded model checking (Kani/CBMC) of StringRef::write for every reference number",
+    "claim": "For every reference number 1..0xFFFFFF: in two-byte mode StringRef::write returns an error exactly when the "
+             "number exceeds 0xFFFF (never truncates, never panics) and otherwise round-trips; three-byte mode always "
+             "writes 3 bytes. The other limits of the property (32 columns, 65,536 rows, 65,536th string, name lengths) "
+             "are not decided here.",
+    "note": "Two of five limits are within reach (reference width here; the reader's row limit is planned on engine M). "
+            "create_table's column limit, incref's 65,536th-string panic and name-length limits need Package/cfb or "
+            "65,535-entry pools.",
+    "kani": [H(_CELLS + "c20_stringref_width", timeout=300, symbolic="reference number 1..0xFFFFFF, width flag", bounds="unwind 6",
+               functions=["stringpool::StringRef::write", "stringpool::StringRef::read"]),
+             H(_CELLS + "c01_cell_roundtrip_str_short", timeout=300, symbolic="string cell value, two-byte references", bounds="unwind 6", functions=_F_CELL)],
+    "bounds": "all 24-bit reference numbers",
+    "outside": "32-column limit, row-count limit on the write side, pool-size limit (panic in incref), name-length limits",
+    "assumptions": _KASSUME,
+}
+
+
+# ---------------------------------------------------------------- C19
+PROPS["C19"] = {
+    "level": "model_checking", "engine": "mir-smt", "mir": True,
+    "technique": "symbolic execution of the MIR of one activation of Ast::format_with_precedence (event mode) into "
+                 "guarded token templates; z3/cvc5 decide, per (parent, slot, child) operator triple, that parentheses are "
+                 "emitted wherever the property's precedence ladder needs them",
+    "claim": "From the MIR of Ast::format_with_precedence and BinOp::precedence as compiled from the current tree: every "
+             "node kind prints its own operator token between its operands in order with balanced parentheses, and for "
+             "every (parent operator, operand slot, child operator) the child is parenthesised whenever the ladder OR < "
+             "AND < NOT < comparison < | < ^ < & < shifts < + - < * / < unary - ~ (binary levels left-associative) "
+             "requires it. That the printed text re-parses to the printed tree for trees of any height follows by the "
+             "usual structural induction, which is the stated paper step. Statement printers (SELECT/INSERT/UPDATE/"
+             "DELETE) loop over rows/columns and are outside.",
+    "note": "Trusted: the MIR-to-SMT translator (validated on every run by rendering the nine expressions of the repo's "
+            "own display test from the derived templates), the reference ladder in vlib/mir_engine.py, z3/cvc5. A "
+            "counterexample triple is rebuilt through the public Expr constructors, printed by the real Display, "
+            "re-read by an independent precedence parser and evaluated natively before it is reported. Outside: "
+            "literal escaping, Display of Select/Join/Insert/Update/Delete.",
+    "bounds": "one printer activation; parent precedence any i32; all 22 node kinds; all 20x2x22 operator triples",
+    "outside": "statement-level Display, literals needing escapes, tokenisation issues such as '--'",
+    "assumptions": ["write_str modelled as 'emit token, return Ok' (error early-returns do not change what is printed)",
+                    "recursive calls modelled as 'emit child k at precedence p'", "Value's Display and String::as_str are opaque events"],
+}
+
+# ---------------------------------------------------------------- C14
+PROPS["C14"] = {
+    "level": "model_checking", "engine": "mir-smt+kani", "mir": True,
+    "technique": "MIR of CodePage::encoding symbolically executed over a symbolic discriminant, z3/cvc5 compare the table "
+                 "with the Windows reference; Kani/CBMC decide the id maps (all i32) and the US-ASCII codec laws",
+    "claim": "For the project-code part of the code-page layer: identifier lookup and reverse lookup are mutually inverse "
+             "for every i32 (Kani); every code page selects the encoding_rs table of the Windows code page its identifier "
+             "names (MIR + SMT, symbolic discriminant; 28591 -> windows-1252 accepted); the US-ASCII codec obeys the "
+             "per-character and concatenation laws for all strings of <=4 bytes (Kani). That encoding_rs's tables "
+             "implement the Windows code pages, and the 1024-byte chunk loop around encoding_rs, are trusted / outside.",
+    "note": "Trusted: encoding_rs's tables (per-character laws over 1.1M scalars x 26 pages are table lookups inside a "
+            "dependency: one symbolic char through WINDOWS_1252 did not finish in 10 min), the reference table in "
+            "vlib/mir_engine.py, translator, z3/cvc5, Kani/CBMC. Outside: CodePage::encode's chunk loop, decoding laws of "
+            "the non-ASCII pages.",
+    "kani": [
+        H("proofs::c14::c14_id_inverse", timeout=300, symbolic="any i32 identifier; any of the 26 code pages", bounds="loop-free",
+          functions=["codepage::CodePage::from_id", "codepage::CodePage::id"]),
+        H("proofs::c14::c14_ascii_laws_len1", timeout=600, symbolic="1 byte of valid UTF-8", bounds="strings of 1 byte; unwind 8",
+          functions=["codepage::ascii_encode", "codepage::ascii_decode", "codepage::CodePage::encode", "codepage::CodePage::decode"]),
+        H("proofs::c14::c14_ascii_laws_len2", timeout=900, symbolic="2 bytes of valid UTF-8 (two ASCII or one 2-byte char)", bounds="strings of 2 bytes; unwind 8",
+          functions=["codepage::ascii_encode", "codepage::ascii_decode"]),
+        H("proofs::c14::c14_ascii_decode_total", timeout=600, symbolic="3 arbitrary bytes", bounds="3 bytes; unwind 8", functions=["codepage::ascii_decode"]),
+    ],
+    "bounds": "all i32 ids; 26 code pages; US-ASCII strings up to 2 bytes (thorough: 3)",
+    "outside": "encoding_rs tables, the chunked encoder loop, strings across the 1024-byte buffer boundary",
+    "assumptions": _KASSUME,
 }
